@@ -81,6 +81,16 @@ W_KNOBS = {
     "knobs": {"K1": (P("a"), (1, 2), (P("b"), P("c"))), "K2": (P("d"), (3,), (P("c"),))},
 }
 
+# a linear knob with three targets (an interrupted run has more than one way of being half done)
+W_KNOB3 = {
+    "name": "W-knob3",
+    "data": {"a": 1, "b": 10, "c": 20, "d": 30, "e": 0},
+    "leaves": [P("a"), P("e")],
+    "containers": {},
+    "funs": {},
+    "knobs": {"K3": (P("a"), (1, 2, 3), (P("b"), P("c"), P("d")))},
+}
+
 # three levels of nesting: targets s['n']['m']['x'] and readers of the containers two levels above them
 W_DEEP = {
     "name": "W-deep",
@@ -90,7 +100,7 @@ W_DEEP = {
     "funs": {}, "knobs": {},
 }
 
-WORLDS = {w["name"]: w for w in (W_NEST, W_NEST_4, W_NEST_SMALL, W_MIX, W_FLAT, W_MIX_ATTR, W_DEEP, W_KNOBS, W_FLAT_REFS)}
+WORLDS = {w["name"]: w for w in (W_NEST, W_NEST_4, W_NEST_SMALL, W_MIX, W_FLAT, W_MIX_ATTR, W_DEEP, W_KNOBS, W_FLAT_REFS, W_KNOB3)}
 
 
 def tmpl(name, args):
